@@ -164,7 +164,8 @@ func (ctx *actorContext) UnWatch(target ActorRef) {
 }
 
 func (ctx *actorContext) onWatch(m *messages.Watch) {
-	if ctx.status.Load() >= actorStatusTerminating {
+	// 仅在已终止时立即应答；终止中的 Actor 将观察者记录下来，待其真正终止时（tryTerminated）再通知
+	if ctx.status.Load() == actorStatusTerminated {
 		ctx.deliverySystemMessage(ctx.sender, ctx.sender, ctx.ref, nil, &messages.Terminated{TerminatedProcess: ctx.ref})
 	} else {
 		if ctx.watchers == nil {
@@ -655,12 +656,13 @@ func (ctx *actorContext) tryRestarted() {
 		return
 	}
 
+	ctx.processMessage(ctx.sender, ctx.ref, onTerminate, false)
+	ctx.processMessage(ctx.sender, ctx.ref, &OnTerminated{ctx.ref}, false)
+
+	// 在旧实例的 OnTerminate / OnTerminated 处理完毕后再释放订阅，否则其间产生的订阅将被新实例继承
 	for _, subscription := range ctx.subscriptions {
 		ctx.UnSubscribe(subscription)
 	}
-
-	ctx.processMessage(ctx.sender, ctx.ref, onTerminate, false)
-	ctx.processMessage(ctx.sender, ctx.ref, &OnTerminated{ctx.ref}, false)
 
 	ctx.internalPersistence()
 
@@ -754,12 +756,13 @@ func (ctx *actorContext) tryTerminated() {
 		return
 	}
 
+	terminatedMessage := &OnTerminated{TerminatedActor: ctx.ref}
+	ctx.processMessage(ctx.sender, ctx.ref, terminatedMessage, false)
+
+	// 在 OnTerminated 处理完毕后再释放订阅，否则其间产生的订阅将永远不会被释放（此后的发布均成为死信）
 	for _, subscription := range ctx.subscriptions {
 		ctx.UnSubscribe(subscription)
 	}
-
-	terminatedMessage := &OnTerminated{TerminatedActor: ctx.ref}
-	ctx.processMessage(ctx.sender, ctx.ref, terminatedMessage, false)
 	// 若邮箱因事故处于挂起状态，恢复它以便剩余的用户消息进入深渊（死信），而不是永远滞留
 	ctx.deliverySystemMessage(ctx.ref, ctx.ref, ctx.ref, nil, onResumeMailbox)
 	ctx.system.rc.Unregister(ctx.sender, ctx.ref)
